@@ -30,7 +30,7 @@ if ok:
     rc, out = run(f'git apply {dst}/patch.diff', cwd=wt); assert rc == 0, out
     try:
         t = time.time()
-        cmd = f'./check {pid} --tier {tier} --no-evidence' + (f' --only {only}' if only else '')
+        cmd = f'./check {pid} --tier {tier} --no-evidence --jobs {os.environ.get("SEED_JOBS", "16")}' + (f' --only {only}' if only else '')
         rcc, outc = run(cmd, cwd='/verif', timeout=3600, env=dict(os.environ, SYMNP_REPO=wt))
         viol = [l for l in outc.split('\n') if l.startswith('VIOLATION')]
         vnames = sorted({l.split(' :: ')[0].replace('  violation: ', '') + ' :: ' + l.split(' :: ')[1] for l in outc.split('\n') if l.startswith('  violation:')})
